@@ -186,9 +186,9 @@ Proof.
 Qed.
 
 (* ------------------------------------------------------------------ the regenerated table *)
-Lemma ok_or_known_fixed tbl : forallb loop_ok_or_known tbl = true -> lazy_fixed tbl = true -> forallb loop_ok tbl = true.
+Lemma ok_or_known_fixed tbl : forallb loop_ok_or_known tbl = true -> known_fixed tbl = true -> forallb loop_ok tbl = true.
 Proof.
-  unfold lazy_fixed. induction tbl as [|s tbl IH]; intros H1 H2; [reflexivity|].
+  unfold known_fixed. induction tbl as [|s tbl IH]; intros H1 H2; [reflexivity|].
   cbn [forallb existsb] in *. apply andb_true_iff in H1. destruct H1 as [Ha Hb].
   apply negb_true_iff, orb_false_iff in H2. destruct H2 as [Hc Hd].
   unfold loop_ok_or_known in Ha. rewrite Hc, orb_false_r in Ha. rewrite Ha. cbn [andb].
@@ -204,20 +204,26 @@ Proof.
   rewrite Ha. cbn [andb]. now apply IH.
 Qed.
 
-Lemma known_unsorted_output tbl : existsb known_lazy_unsorted tbl = true -> all_sorted (output_sites tbl) = false.
+Lemma known_unsorted_props s : known_unsorted s = true -> is_output (ls_effect s) = true /\ ls_sorted s = false.
+Proof.
+  unfold known_unsorted, known_lazy_unsorted, is_lazy_site, known_int_enum_unsorted, is_int_enum_site. intro H.
+  apply orb_true_iff in H. destruct H as [H|H];
+    repeat (apply andb_true_iff in H; destruct H as [H ?]);
+    (split; [assumption|now apply negb_true_iff]).
+Qed.
+
+Lemma known_unsorted_output tbl : existsb known_unsorted tbl = true -> all_sorted (output_sites tbl) = false.
 Proof.
   unfold output_sites, all_sorted. induction tbl as [|s tbl IH]; intro H; [discriminate|].
   cbn [existsb] in H. cbn [filter].
-  destruct (known_lazy_unsorted s) eqn:E.
-  - unfold known_lazy_unsorted, is_lazy_site in E. repeat (apply andb_true_iff in E; destruct E as [E ?]).
-    match goal with H0 : is_output _ = true |- _ => rewrite H0 end.
-    match goal with H0 : negb _ = true |- _ => apply negb_true_iff in H0; cbn [map forallb]; rewrite H0 end. reflexivity.
+  destruct (known_unsorted s) eqn:E.
+  - destruct (known_unsorted_props s E) as [Ho Hs]. rewrite Ho. cbn [map forallb]. rewrite Hs. reflexivity.
   - cbn [orb] in H. destruct (is_output (ls_effect s)); [|now apply IH].
     cbn [map forallb]. rewrite (IH H). apply andb_false_r.
 Qed.
 
 (* stage A obligation: every place where the generator orders an unordered collection either sorts, or cannot reach the
-   generated files, or is one of the lazy_imports loops of model.py.jinja (known finding lazy_unsorted) *)
+   generated files, or is a listed known finding (lazy_imports loops of model.py.jinja: lazy_unsorted; int_enum.py.jinja: int_enum_twin_order) *)
 Theorem all_loops_sorted_except_known : forallb loop_ok_or_known gen_loops = true.
 Proof. vm_compute. reflexivity. Qed.
 
@@ -225,20 +231,25 @@ Proof. vm_compute. reflexivity. Qed.
 Theorem registrations_safe : forallb reg_ok gen_registrations = true.
 Proof. vm_compute. reflexivity. Qed.
 
-Theorem all_loops_sorted_if_fixed : lazy_fixed gen_loops = true -> forallb loop_ok gen_loops = true.
+(* stage A obligation: the recursive-allOf test of _process_models is on the whole last path segment (RetryThm.rec_exact_order_independent
+   is about that test; RetryThm.rec_sloppy_refuted shows what a suffix test does) *)
+Theorem recursion_test_is_exact : gen_recursion_test_exact = true.
+Proof. vm_compute. reflexivity. Qed.
+
+Theorem all_loops_sorted_if_fixed : known_fixed gen_loops = true -> forallb loop_ok gen_loops = true.
 Proof. apply ok_or_known_fixed. exact all_loops_sorted_except_known. Qed.
 
 (* the verdict for the tree as it is: with the lazy loops sorted the emission of every output site is independent of the
    sets' enumeration orders (for case-distinct sets); otherwise two enumerations with different output exist *)
 Theorem rendering_verdict :
-  if lazy_fixed gen_loops
+  if known_fixed gen_loops
   then forall e e', Forall2 (@Permutation str) e e' -> case_distinct e -> render (output_sites gen_loops) e = render (output_sites gen_loops) e'
   else exists e e', Forall2 (@Permutation str) e e' /\ case_distinct e /\ render (output_sites gen_loops) e <> render (output_sites gen_loops) e'.
 Proof.
-  destruct (lazy_fixed gen_loops) eqn:E.
+  destruct (known_fixed gen_loops) eqn:E.
   - intros e e' Hp Hd. apply sorted_emission_deterministic; [|exact Hp|exact Hd].
     apply loop_ok_output_sorted. apply all_loops_sorted_if_fixed. exact E.
-  - apply unsorted_refuted. apply known_unsorted_output. unfold lazy_fixed in E. now apply negb_false_iff in E.
+  - apply unsorted_refuted. apply known_unsorted_output. unfold known_fixed in E. now apply negb_false_iff in E.
 Qed.
 
 (* non-vacuity: a realistic import set satisfies the guard and is emitted in one order whatever the enumeration *)
